@@ -172,6 +172,11 @@ Definition fill_blackbox (C : Circuit) (inst : string) (SC : Circuit) : Circuit 
   if negb (bool_decide (inputs (c_g SC) = bb_in d)) then (C, Fail ValueError) else
   if negb (bool_decide (outputs (c_g SC) = bb_out d)) then (C, Fail ValueError) else
   if existsb (λ n, bool_decide (pre inst n ∈ dom (c_g C))) (elements (dom (c_g SC))) then (C, Fail ValueError) else
+  (* a pin node that still exists must have its pin type; no output of SC may be a blackbox pin (fix a758c71) *)
+  if existsb (λ p, match ty (c_g C) (pin inst p) with Some t => negb (bool_decide (t = BbIn)) | None => false end)
+             (elements (bb_in d)) then (C, Fail ValueError) else
+  if existsb (λ p, match ty (c_g C) (pin inst p) with Some t => negb (bool_decide (t = BbOut)) | None => false end
+                   || is_in (ty (c_g SC) p) [BbIn; BbOut]) (elements (bb_out d)) then (C, Fail ValueError) else
   let g0 := relabel_pins inst d (c_g C) in
   let g1 := update_g g0 (rename_g (pre inst) (c_g SC)) in
   let g2 := set_fold (λ n g, alter (retype Buf) (pre inst n) g) g1 (bb_in d) in
